@@ -605,7 +605,10 @@ func (r *hRunner) RunBlock(b HBlock, feed [][]byte) (BlockTrace, [][]byte) {
 	eb, hash := n.EndBlockCommit()
 	tr.End = digestEvents(eb.Events)
 	tr.AppHash = fmt.Sprintf("%X", hash)
-	tr.ValUpds = fmt.Sprintf("%v", eb.ValidatorUpdates)
+	for _, u := range eb.ValidatorUpdates {
+		pk, _ := u.PubKey.Marshal()
+		tr.ValUpds += fmt.Sprintf("%x:%d;", pk, u.Power)
+	}
 	return tr, delivered
 }
 
